@@ -169,8 +169,11 @@ def run_tlc(
         simulate is not None and res.violation is None and p.returncode == 0
     )
     if res.violation is None and not res.postcondition_failed and not ok_end:
-        tail = "\n".join(out.splitlines()[-40:])
-        raise MachineryError(f"TLC did not complete on {module}/{cfg} (rc={p.returncode}):\n{tail}\n{p.stderr[-2000:]}")
+        lines = out.splitlines()
+        errs = [i for i, l in enumerate(lines) if l.startswith("Error:") or "overflow" in l.lower()]
+        ctx = "\n".join("\n".join(lines[i : i + 6]) for i in errs[:3])
+        tail = "\n".join(lines[-12:])
+        raise MachineryError(f"TLC did not complete on {module}/{cfg} (rc={p.returncode}):\n{ctx}\n...\n{tail}\n{p.stderr[-2000:]}")
     return res
 
 
